@@ -35,6 +35,7 @@ func (o Out) Def() string {
 type Check struct {
 	Marker   string `json:"marker"`
 	Expected string `json:"expected,omitempty"` // if set the check prints the marker content and grog compares
+	Shape    string `json:"shape,omitempty"`    // how the check command is written (see Target.Shape)
 }
 
 type Target struct {
@@ -64,6 +65,11 @@ type Target struct {
 	Untouch   string `json:"untouch,omitempty"` // marker removed by the command while UntouchIf is present (the command itself breaks a checked condition)
 	UntouchIf string `json:"untouch_if,omitempty"`
 	RawCmd    string `json:"raw_cmd,omitempty"` // if set, used verbatim as the command
+	// Shape: how the command line is written. "" = the plain helper invocation; "and" = `helper
+	// ... && true` (a failing helper is the non-final member of an AND list: `set -e` does not
+	// fire, the script simply ends with the helper's status); "nosete" = `set +e; helper ...`
+	// (status of the last command). A failure must be a failure in every spelling.
+	Shape string `json:"shape,omitempty"`
 }
 
 type Alias struct {
@@ -198,10 +204,21 @@ func (t *Target) Command() string {
 	if t.Untouch != "" {
 		sb.WriteString(" --rmif " + shq(t.UntouchIf) + " --rm " + shq(t.Untouch))
 	}
+	cmd := shaped(sb.String(), t.Shape)
 	if t.Quiet != "" {
-		sb.WriteString(" # " + t.Quiet)
+		cmd += " # " + t.Quiet
 	}
-	return sb.String()
+	return cmd
+}
+
+func shaped(cmd, shape string) string {
+	switch shape {
+	case "and":
+		return cmd + " && true"
+	case "nosete":
+		return "set +e; " + cmd
+	}
+	return cmd
 }
 
 type jsonCheck struct {
@@ -237,7 +254,7 @@ func (c Check) Command() string {
 	if c.Expected != "" {
 		return `"$VCTL" chk --print ` + shq(c.Marker)
 	}
-	return `"$VCTL" chk ` + shq(c.Marker)
+	return shaped(`"$VCTL" chk `+shq(c.Marker), c.Shape)
 }
 
 // DepRef renders a dependency label the way a user would write it inside pkg.
